@@ -392,6 +392,34 @@ def r_return_claimed(rep, prog):
             continue
         n += 1
         sz = [(cb, ct) for cb, ct in b.calls_to("llfree::bitfield::Bitfield::set_first_zeros")]
+        # arithmetic form (independent of how the index arithmetic is spelled): frame = HUGE_FRAMES * bf_i + offset, or
+        # frame = TREE_FRAMES * tree + HUGE_FRAMES * (first claimed entry)
+        lv = lib.index_lin(prog, val)
+        hf = prog.crate("llfree").const("llfree::HUGE_FRAMES")
+        tf = prog.crate("llfree").const("llfree::TREE_FRAMES")
+        sem = None
+        if lv is not None and sz:
+            sel = [x for x in T.walk(tm.operand(sz[0][1]["args"][0])) if x[0] == "call" and x[1] == "llfree::lower::Lower::bitfield"]
+            off = lib.index_lin(prog, ("f", ("f", ("as", tm.call_term(sz[0][0]), "Ok"), 0, None), 0, None))
+            if sel and off is not None:
+                ls = lib.index_lin(prog, sel[0][2][1])
+                if ls is not None and T._lin_add(T._lin_scale(ls, hf), off, 1) == lv:
+                    sem = "base-order"
+        ces = list(b.calls_to("<slice as llfree::atomic::AtomicSlice>::compare_exchange_all"))
+        chs = list(b.calls_to("llfree::lower::Lower::children"))
+        if sem is None and lv is not None and ces and chs:
+            rng = [x for x in T.walk(tm.operand(ces[0][1]["args"][0])) if x[0] == "agg" and x[1].startswith("adt:core::ops::range::Range::Range")]
+            lt = lib.index_lin(prog, tm.operand(chs[0][1]["args"][1]))
+            if rng and lt is not None:
+                lo = lib.index_lin(prog, rng[0][2][0])
+                if lo is not None and T._lin_add(T._lin_scale(lt, tf), T._lin_scale(lo, hf), 1) == lv:
+                    sem = "huge-order"
+        if sem == "base-order":
+            rep.check(True, rule, "Lower::get|base-order", "returns HUGE_FRAMES * bf_i + the offset set_first_zeros claimed in bitfield bf_i")
+            continue
+        if sem == "huge-order":
+            rep.check(True, rule, "Lower::get|huge-order", "returns TREE_FRAMES * tree + HUGE_FRAMES * i for the claimed entries [i, i + 2^k)")
+            continue
         if val[0] == "call" and val[1].endswith("core::ops::arith::Add>::add"):
             # base path: bf_i.as_frame() + offset
             base, off = val[2]
@@ -460,6 +488,16 @@ def r_return_claimed(rep, prog):
             rowsel = [x for x in T.walk(stm.operand(ups[0][1]["args"][0])) if x[0] == "agg" and x[1].startswith("adt:llfree::bitfield::RowId")]
             okb = base[0] == "call" and base[1] == "llfree::bitfield::RowId::as_frame" and rowsel and T.canon(base[2][0]) == T.canon(rowsel[0])
             ok = bool(okb)
+        if not ok and ups:
+            # arithmetic form: frame = BITFIELD_ROW * (row that was updated) + one offset value
+            rows_ = [x for x in T.walk(stm.operand(ups[0][1]["args"][0])) if x[0] == "call" and x[1] == "llfree::bitfield::Bitfield::row"]
+            rb = prog.crate("llfree").const("llfree::BITFIELD_ROW")
+            lv = lib.index_lin(prog, val)
+            lr = lib.index_lin(prog, rows_[0][2][1]) if rows_ else None
+            if lv is not None and lr is not None:
+                d = T._lin_add(lv, T._lin_scale(lr, rb), -1)
+                # (the offset is a variable the closure assigns through a capture: its term is the initial FrameId(0) or one atom)
+                ok = d is not None and d[1] == 0 and (not d[0] or (len(d[0]) == 1 and list(d[0].values())[0] == 1))
     rep.check(ok, rule, "set_first_zeros|row", "returns RowId(i).as_frame() + offset for the row it updated",
               "set_first_zeros reports a different row than the one it updated", s.span)
     # the offset is the one first_zeros_aligned returned for the value that was stored
@@ -683,7 +721,7 @@ def r_huge_coord(rep, prog):
     for name, b in sorted(crate.bodies.items()):
         if not name.startswith("llfree::lower::Lower::") or b.kind == "closure":
             continue
-        entries, sels = [], []
+        entries, sels, raw_entries, raw_sels = [], [], [], []
         for bb in [b] + list(crate.closures_of(name)):
             tm = T.Terms(bb, prog)
             for bi, t in bb.calls():
@@ -697,18 +735,46 @@ def r_huge_coord(rep, prog):
                             e = entry_coord(T.canon(x))
                             if e is not None and e not in entries:
                                 entries.append(e)
+                                base_ = x[1]
+                                while base_[0] in ("&", "cast", "*"):
+                                    base_ = base_[1]
+                                raw_entries.append((base_[2][1], x[2]))
                 if cn == "llfree::lower::Lower::bitfield":
                     term = tm.operand(t["args"][1])
                     if bb.kind == "closure":
                         term = lib.resolve_upvars(prog, bb, term)
                     sels.append((T.canon(term), t["span"]))
+                    raw_sels.append(term)
         if not sels or not entries:
             continue
         rep.saw(name)
         short = name.rsplit("::", 1)[1]
         locals_ = {e[2] for e in entries if e[0] == "tl"}
-        for h, span in sels:
+        def semantic(hraw_):
+            """H == T * TREE_HUGE + L as index normal forms, for one of the entries used in this function"""
+            lh = lib.index_lin(prog, hraw_)
+            if lh is None:
+                return False
+            for traw, lraw in raw_entries:
+                lt, ll = lib.index_lin(prog, traw), lib.index_lin(prog, lraw)
+                if lt is None or ll is None:
+                    continue
+                if T._lin_add(T._lin_scale(lt, th), ll, 1) == lh:
+                    return True
+            return False
+
+        def is_local(hraw_):
+            lh = lib.index_lin(prog, hraw_)
+            return lh is not None and any(lib.index_lin(prog, lraw) == lh for _, lraw in raw_entries)
+
+        for (h, span), hraw in zip(sels, raw_sels):
             d = decomp(h, locals_)
+            if d is None and semantic(hraw):
+                n += 1
+                rep.check(True, rule, "%s|bitfield-of-entry" % short, "bitfield selector = tree * TREE_HUGE + entry index (normal forms)")
+                continue
+            if d is None and is_local(hraw):
+                d = ("local", h)
             if d is None:
                 rep.check(True, rule, "%s|bitfield-of-entry" % short, "undecided: selector form not recognised (%s)" % str(h)[:100])
                 rep.note("%s: bitfield selector in %s has an unrecognised form; agreement with the huge entry is undecided" % (rule, short))
@@ -719,7 +785,7 @@ def r_huge_coord(rep, prog):
                               "global huge frame number (tree * TREE_HUGE + index), so outside tree 0 counter and bits belong to "
                               "different huge frames", span)
                 continue
-            ok = d in entries
+            ok = d in entries or semantic(hraw)
             n += ok
             rep.check(ok, rule, "%s|bitfield-of-entry" % short, "bitfield selector and children(T)[L] name the same huge frame",
                       "the bitfield selector and the huge entry used next to it do not name the same huge frame "
